@@ -186,6 +186,55 @@ bool gen_enum_case(Ctx &c, StaticCase<K> &sc) {
     return true;
 }
 
+/// A few million keys with very uneven density (the case index selects the family): irregular keys around ONE giant run of
+/// consecutive integers, irregular keys only (hundreds of thousands of segments), irregular keys around one giant run of
+/// EQUAL keys. Succinct structures (rank / select directories, Elias-Fano buckets) change representation with density.
+template<class K>
+StaticCase<K> gen_big_case(Ctx &c, size_t eps) {
+    using D = UDom<K>;
+    Rng &r = c.rng;
+    StaticCase<K> sc;
+    sc.chunked = true;
+    sc.threads = r.pick<int>({1, 3, 16});
+    const uint64_t R = D::R;
+    int fam = int(c.case_idx % 3);
+    // total size log-uniform in [400k, 3.5M]; the irregular head takes 3..50 %, the tail 5..20 %, the run the rest
+    size_t total = size_t(400000.0 * std::pow(8.75, r.unit()));
+    size_t head = size_t(total * (0.03 + 0.47 * r.unit())), tail = size_t(total * (0.05 + 0.15 * r.unit()));
+    size_t run = total - head - tail;
+    std::vector<uint64_t> u;
+    u.reserve(total + 8);
+    uint64_t cur = r.below(1000);
+    const int maxsh = r.pick<int>({10, 17, 23}); // how heavy the tail of the gap distribution is (short vs longer segments)
+    auto irregular = [&](size_t cnt) {
+        for (size_t i = 0; i < cnt; ++i) {
+            u.push_back(cur);
+            cur = sat_add(cur, uint64_t(1) << r.below(uint64_t(maxsh) + 1), R);
+        }
+    };
+    irregular(head);
+    if (fam == 0) {
+        sc.family = "big_giant_consecutive_run";
+        for (size_t i = 0; i < run; ++i) { u.push_back(cur); cur = sat_add(cur, 1, R); }
+    } else if (fam == 1) {
+        sc.family = "big_irregular";
+        irregular(run / 2);
+    } else {
+        sc.family = "big_giant_equal_run";
+        for (size_t i = 0; i < run; ++i) u.push_back(cur);
+        cur = sat_add(cur, 1 + r.below(1000), R);
+    }
+    irregular(tail);
+    (void) eps;
+    sc.keys.resize(u.size());
+    for (size_t i = 0; i < u.size(); ++i) sc.keys[i] = D::to_key(std::min(u[i], R));
+    size_t chunk = sc.keys.size() / size_t(std::max(sc.threads, 1));
+    for (int i = 1; i < sc.threads; ++i) sc.seams.push_back(size_t(i) * chunk);
+    sc.seams.push_back(head);
+    sc.seams.push_back(u.size() - tail);
+    return sc;
+}
+
 template<class K>
 StaticCase<K> make_static_case(Ctx &c, size_t eps, bool chunked, size_t maxn_small, size_t maxn_big, size_t eps_rec = 0) {
     StaticCase<K> sc;
@@ -302,6 +351,7 @@ void run_static(Ctx &c, StaticCase<K> &sc, char which, Extra &extra) {
     // queries
     bool present_only = which == 'P';
     size_t cap = sc.chunked ? 12000 : 4000;
+    if (sc.keys.size() > (size_t(1) << 20)) cap = 60000;
     if (sc.keys.size() > (size_t(1) << 24)) cap = (c.prop("C07") || c.prop("C04") || c.prop("C17")) ? 20000 : 400000;
     std::vector<K> qs = sc.queries.empty() ? gen_queries(sc.keys, c.rng, cap, present_only) : sc.queries;
     if (sc.queries.empty() && !present_only) {
@@ -521,6 +571,7 @@ void pgm_case(Ctx &c) {
     if (c.thorough() && c.case_idx % 16 == 15) big = size_t(1) << 20;
     StaticCase<K> sc;
     if constexpr (Mode == 2 && std::is_integral_v<K>) sc = c.given ? make_static_case<K>(c, Eps, true, 5000, big, EpsRec) : gen_huge_case<K>(c.rng, Eps);
+    else if constexpr (Mode == 4 && std::is_integral_v<K>) sc = c.given ? make_static_case<K>(c, Eps, true, 5000, big, EpsRec) : gen_big_case<K>(c, Eps);
     else if constexpr (Mode == 3 && std::is_integral_v<K>) {
         if (c.given) sc = make_static_case<K>(c, Eps, false, 5000, big, EpsRec);
         else if (!gen_enum_case<K>(c, sc)) { c.count("enum_cases_past_the_end"); return; }
@@ -554,6 +605,9 @@ void pgm_case(Ctx &c) {
 #define VF_PGM_ENUM(K, E, ER, F)                                                                                       \
     VF_REGISTER(std::string("pgm/") + ::vf::KT<K>::name() + ",e" #E ",er" #ER "," #F "#enum",                         \
                 (&::vf::pgm_case<K, E, ER, F, 3>), 5.8)
+#define VF_PGM_BIG(K, E, ER, F)                                                                                        \
+    VF_REGISTER(std::string("pgm/") + ::vf::KT<K>::name() + ",e" #E ",er" #ER "," #F "#big",                          \
+                (&::vf::pgm_case<K, E, ER, F, 4>), 0.0041)
 #define VF_PGM_HUGE(K, E, ER, F)                                                                                       \
     VF_REGISTER(std::string("pgm/") + ::vf::KT<K>::name() + ",e" #E ",er" #ER "," #F "#huge",                         \
                 (&::vf::pgm_case<K, E, ER, F, 2>), 0.0003)
